@@ -222,6 +222,10 @@ func c03(w *core.World, r *core.Report) {
 	// the fact "JoinErrors() is non-nil when HasErrors()" needs the errors of EVERY intent in the result
 	ruleJoinAccumulates(w, r, "ERR-NONNIL")
 
+	// ---- ALL-DELETES-SENT (shared with C10): the dry run reports GetDeletes, the real run sends ToProtoDeletes
+	r.Rule("ALL-DELETES-SENT", 1, "(shared with C10) what a dry run reports as deleted is what the real run sends: RootEntry.ToProtoDeletes hands on every delete that GetDeletes computed (one append in the loop over the GetDeletes result, no path through the loop body skips it). A filter added there ('the device does not hold it', de-duplication) makes the real run send fewer deletes than the dry run predicted.")
+	ruleAllDeletesSent(w, r)
+
 	// ---- APPLY-SENDS (shared with C01)
 	r.Rule("APPLY-SENDS", 2, "Datastore.applyIntent returns success only after target.Target.Set was called with the tree it was given (dominance over every nil-error return). Decides: the deletes and updates a dry run reports from that tree are not silently withheld from the device by a shortcut in the apply step.")
 	ruleApplySends(w, r, "APPLY-SENDS")
